@@ -9,6 +9,7 @@ import numpoly
 
 from ..baseclass import ndpoly, PolyLike
 from ..dispatch import implements
+from ..construct.from_attributes import CFUNCTION_DTYPES
 
 
 @implements(numpy.multiply)
@@ -78,32 +79,33 @@ def multiply(
         else out
     )
 
-    #    seen = set()
-    #    for expon1, coeff1 in zip(x1.exponents, x1.coefficients):
-    #        for expon2, coeff2 in zip(x2.exponents, x2.coefficients):
-    #            key = (expon1 + expon2 + x1.KEY_OFFSET).ravel()
-    #            key = key.view(f"U{len(expon1)}").item()
-    #            if key in seen:
-    #                out_.values[key] += numpy.multiply(
-    #                    coeff1, coeff2, where=where, **kwargs
-    #                )
-    #            else:
-    #                numpy.multiply(
-    #                    coeff1, coeff2, out=out_.values[key], where=where, **kwargs
-    #                )
-    #            seen.add(key)
-    #
-    #    if out is None:
-    #        out_ = numpoly.clean_attributes(out_)
-
-    numpoly.cmultiply(
-        x1.exponents,
-        x2.exponents,
-        x1.coefficients,
-        x2.coefficients,
-        x1.KEY_OFFSET,
-        out_.values.ravel(),
+    # The compiled kernel writes one byte per exponent into the storage key and
+    # only knows a few coefficient types; fall back on numpy for the rest.
+    compiled = (
+        numpy.dtype(dtype) in CFUNCTION_DTYPES
+        and out_.dtype == dtype
+        and int(numpy.max(exponents, initial=0)) + x1.KEY_OFFSET < 128
     )
+    if compiled:
+        numpoly.cmultiply(
+            x1.exponents,
+            x2.exponents,
+            [numpy.asarray(coeff, dtype=dtype) for coeff in x1.coefficients],
+            [numpy.asarray(coeff, dtype=dtype) for coeff in x2.coefficients],
+            x1.KEY_OFFSET,
+            out_.values.ravel(),
+        )
+    else:
+        seen = set()
+        for expon1, coeff1 in zip(x1.exponents, x1.coefficients):
+            for expon2, coeff2 in zip(x2.exponents, x2.coefficients):
+                key = (expon1 + expon2 + x1.KEY_OFFSET).ravel()
+                key = key.view(f"U{len(expon1)}").item()
+                if key in seen:
+                    out_.values[key] += numpy.multiply(coeff1, coeff2)
+                else:
+                    out_.values[key] = numpy.multiply(coeff1, coeff2)
+                seen.add(key)
     if out is None:
         out_ = numpoly.clean_attributes(out_)
 
